@@ -4,4 +4,4 @@ From Coq Require Import Extraction ExtrOcamlBasic.
 From LolModel Require Import Policy Rewriter.
 From LolSpec Require Import CssSem.
 Extraction Language OCaml.
-Extraction "model.ml" l1_case l2_case css_expected.
+Extraction "model.ml" l1_case l2_case css_expected scope_expected.
